@@ -1734,6 +1734,7 @@ def _attrgetters(tree):
                 getters[st.targets[0].id] = [a.value for a in v.args]
     getters = {k: v for k, v in getters.items() if seen.get(k) == 1}
     ops = {"eq": ast.Eq, "ne": ast.NotEq, "is_": ast.Is, "is_not": ast.IsNot, "lt": ast.Lt, "le": ast.LtE, "gt": ast.Gt, "ge": ast.GtE}
+    binops = {"add": ast.Add, "sub": ast.Sub, "mul": ast.Mult, "truediv": ast.Div, "floordiv": ast.FloorDiv, "mod": ast.Mod, "pow": ast.Pow}
     count = [0]
 
     def chain(base, dotted):
@@ -1752,6 +1753,21 @@ def _attrgetters(tree):
                 if len(names) == 1:
                     return ast.copy_location(chain(copy.deepcopy(node.args[0]), names[0]), node)
                 return ast.copy_location(ast.Tuple(elts=[chain(copy.deepcopy(node.args[0]), n_) for n_ in names], ctx=ast.Load()), node)
+            # methodcaller("m", a..)(x) -> x.m(a..) ; map(methodcaller("m", a..), it) -> (v.m(a..) for v in it)
+            def is_mc(e):
+                return isinstance(e, ast.Call) and ast.unparse(e.func) in ("operator.methodcaller", "methodcaller") and e.args and isinstance(e.args[0], ast.Constant) and isinstance(e.args[0].value, str) and e.args[0].value.isidentifier() and not any(isinstance(a, ast.Starred) for a in e.args) and all(_simple(a) for a in e.args[1:]) and all(k.arg and _simple(k.value) for k in e.keywords)
+
+            def mc_apply(mc, obj):
+                return ast.Call(func=ast.Attribute(value=obj, attr=mc.args[0].value, ctx=ast.Load()), args=[copy.deepcopy(a) for a in mc.args[1:]], keywords=[copy.deepcopy(k) for k in mc.keywords])
+
+            if is_mc(f) and len(node.args) == 1 and not node.keywords and not isinstance(node.args[0], ast.Starred):
+                count[0] += 1
+                return ast.copy_location(mc_apply(f, node.args[0]), node)
+            if isinstance(f, ast.Name) and f.id == "map" and len(node.args) == 2 and not node.keywords and is_mc(node.args[0]):
+                count[0] += 1
+                var = "_mc%d" % count[0]
+                gen = ast.GeneratorExp(elt=mc_apply(node.args[0], ast.Name(id=var, ctx=ast.Load())), generators=[ast.comprehension(target=ast.Name(id=var, ctx=ast.Store()), iter=node.args[1], ifs=[], is_async=0)])
+                return ast.fix_missing_locations(ast.copy_location(gen, node))
             nm = ast.unparse(f)
             if nm.startswith("operator.") and nm.split(".", 1)[1] in ops and not node.keywords:
                 args = node.args
@@ -1760,6 +1776,9 @@ def _attrgetters(tree):
                 if len(args) == 2 and not any(isinstance(a, ast.Starred) for a in args):
                     count[0] += 1
                     return ast.copy_location(ast.Compare(left=args[0], ops=[ops[nm.split(".", 1)[1]]()], comparators=[args[1]]), node)
+            if nm.startswith("operator.") and nm.split(".", 1)[1] in binops and not node.keywords and len(node.args) == 2 and not any(isinstance(a, ast.Starred) for a in node.args):
+                count[0] += 1
+                return ast.copy_location(ast.BinOp(left=node.args[0], op=binops[nm.split(".", 1)[1]](), right=node.args[1]), node)
             return node
 
     _G().visit(tree)
@@ -2206,6 +2225,38 @@ def _module_instances(tree):
     return len(new_funcs)
 
 
+def _iter_protocol(tree):
+    """inside a class whose `__iter__` is `return iter(self.X)` (the object iterates over one of its attributes), a loop
+    or comprehension over `self` in another method of that class iterates over `self.X`"""
+    count = [0]
+    for c in [n for n in tree.body if isinstance(n, ast.ClassDef)]:
+        it = next((st for st in c.body if isinstance(st, ast.FunctionDef) and st.name == "__iter__" and not st.decorator_list), None)
+        if it is None or not it.args.args:
+            continue
+        me = it.args.args[0].arg
+        body = [x for x in it.body if not (isinstance(x, ast.Expr) and isinstance(x.value, ast.Constant))]
+        if len(body) != 1 or not isinstance(body[0], ast.Return):
+            continue
+        v = body[0].value
+        if not (isinstance(v, ast.Call) and isinstance(v.func, ast.Name) and v.func.id == "iter" and len(v.args) == 1 and not v.keywords and isinstance(v.args[0], ast.Attribute) and isinstance(v.args[0].value, ast.Name) and v.args[0].value.id == me):
+            continue
+        attr = v.args[0].attr
+        for m in c.body:
+            if not isinstance(m, ast.FunctionDef) or m is it or not m.args.args or any(ast.unparse(d) == "staticmethod" for d in m.decorator_list):
+                continue
+            recv = m.args.args[0].arg
+            for n in ast.walk(m):
+                if isinstance(n, ast.For) and isinstance(n.iter, ast.Name) and n.iter.id == recv:
+                    n.iter = ast.copy_location(ast.Attribute(value=ast.Name(id=recv, ctx=ast.Load()), attr=attr, ctx=ast.Load()), n.iter)
+                    count[0] += 1
+                elif isinstance(n, ast.comprehension) and isinstance(n.iter, ast.Name) and n.iter.id == recv:
+                    n.iter = ast.Attribute(value=ast.Name(id=recv, ctx=ast.Load()), attr=attr, ctx=ast.Load())
+                    count[0] += 1
+    if count[0]:
+        ast.fix_missing_locations(tree)
+    return count[0]
+
+
 def _single_dispatch(tree):
     """A module-level `functools.singledispatch` function with its registrations (`@f.register(T)` — also stacked —,
     `@f.register` with an annotated first parameter, `f.register(T, impl)`, `f.register(T)(impl)`) is the type switch
@@ -2379,6 +2430,7 @@ def normalise(tree):
     _specialise_template_methods(tree)
     _apply_chosen_callable(tree)
     _attrgetters(tree)
+    _iter_protocol(tree)
     _closure_factories(tree)
     _collect_records(tree)
     _iterate_until(tree)
